@@ -20,7 +20,12 @@ RFAULT = {  # fault text F, context needs
 }
 SFAULT = {"dangling-operator": "{{ 1 + }}", "empty-if": "{% if %}x{% endif %}", "stray-endfor": "{% endfor %}", "unterminated-string": "{{ 'abc }}",
           "unknown-tag": "{% foo %}", "double-dot": "{{ a..b }}", "unclosed-expression": "{{ 1", "unclosed-tag": "{% if 1", "missing-endif": "{% if 1 %}x",
-          "bad-filter-call": "{{ 1 | abs( }}", "assign-keyword": "{% set = 1 %}", "unclosed-comment": "{# c"}
+          "bad-filter-call": "{{ 1 | abs( }}", "assign-keyword": "{% set = 1 %}", "unclosed-comment": "{# c",
+          # the same unterminated constructs when the source ends with a newline (the error sits on a last, empty line)
+          "unclosed-tag-nl": "{% if 1\n", "unclosed-expression-nl": "{{ 1\n", "missing-endif-nl": "{% if 1 %}x\n", "unclosed-comment-nl": "{# c\n\n"}
+# the offending token inside the fault text, where there is no doubt which one it is
+FOCUS = {"undefined-var": "nope", "undefined-field": "x", "unknown-path-in-set": "x", "filter-missing-arg": "replace", "component-missing-arg": "need",
+         "divide-by-zero": "0", "bad-subscript": "'a'", "iterate-scalar": " 1 ", "in-scalar": "2", "spread-non-map": "1"}
 PREFIX = {"none": "", "ascii": "ab ", "two-byte": "é", "three-byte": "世世", "four-byte": "\U0001F600", "line2": "x\n", "line3-multibyte": "é\n世 \n  "}
 NEED = "{% component need(a) %}{{ a }}{% endcomponent need %}"
 ONECHAR = ["\u00ab", "\u00bb", "\u00bf", "\u00a1", "\u00a7", "\u00b6"]      # block start/end, variable start/end, comment start/end
@@ -94,6 +99,14 @@ def build(v):
         sites = [(t, respell(c)) for t, c in sites]
     fs = len(hs[:hs.index(body) + len(PREFIX[v["prefix"]])].encode())
     fe = fs + len(F.encode())
+    foc = None if v["syntax"] else FOCUS.get(v["fault"])
+    if "component" in v["host"] and v["fault"] in ("undefined-field", "unknown-path-in-set"):
+        foc = None            # a component does not see the context: there the undefined thing is `m` itself
+    if foc:
+        xs_ = fs + len(F[:F.index(foc)].encode()) + (len(foc) - len(foc.lstrip()))
+        build.focus = (xs_, xs_ + len(foc.strip().encode()))
+    else:
+        build.focus = (0, 0)
     return tpls, entry, hn, hs, fs, fe, sites
 
 
@@ -115,18 +128,19 @@ def run(tier):
     jobs, meta = [], []
     for v in r.tags["VEC"]:
         tpls, entry, hn, hs, fs, fe, sites = build(v)
+        focus = build.focus
         for opt in (True, False):
             cfg = {"optimize": opt, "autoescape": [".html"]}
             if v.get("delims") == "one-char-2-byte":
                 cfg["delims"] = ONECHAR
             jobs.append({"cfg": cfg, "ctx": {"m": {"a": 1}}, "steps": [{"op": "add", "tpls": tpls}, {"op": "render", "name": entry}]})
-            meta.append((v, dict(tpls), hn, hs, fs, fe, sites, opt))
+            meta.append((v, dict(tpls), hn, hs, fs, fe, sites, opt, focus))
     res = vp.run_jobs(jobs, tag="c12", timeout=3000)
     work = vp.workdir("c12")
     op = os.path.join(work, "obs.ndjson")
     recs = []
     with open(op, "w") as f:
-        for (v, tpls, hn, hs, fs, fe, sites, opt), rr, job in zip(meta, res, jobs):
+        for (v, tpls, hn, hs, fs, fe, sites, opt, focus), rr, job in zip(meta, res, jobs):
             C.count()
             key = {"fault": v["fault"], "host": v["host"], "prefix": v["prefix"], "optimizer": opt, "delims": v.get("delims", "default")}
             if any(y.get("panic") or y.get("abort") for y in rr):
@@ -146,7 +160,7 @@ def run(tier):
             sl, sc, el, ec, s, e = x["span"]
             lines = hs.split("\n")
             disp = x.get("disp") or ""
-            o = dict(facts(hs), file=x.get("file"), host=hn, s=s, e=e, sl=sl, sc=sc, el=el, ec=ec, fs=fs, fe=fe, syntax=v["syntax"],
+            o = dict(facts(hs), file=x.get("file"), host=hn, s=s, e=e, sl=sl, sc=sc, el=el, ec=ec, fs=fs, fe=fe, xs=focus[0], xe=focus[1], syntax=v["syntax"],
                      dispok=bool(x.get("disp_ok")) and bool(disp), shown=[i + 1 for i, ln in enumerate(lines) if ln.strip() and ln in disp],
                      blank=[i + 1 for i, ln in enumerate(lines) if not ln.strip()], notes=[], wantnotes=[t for t, _ in sites], key=key)
             for n in x.get("notes", []):
